@@ -68,6 +68,24 @@ def lean_build():
         return r.returncode == 0, r.stdout
 
 
+def lean_build_with_committed_consts():
+    """When the theorems no longer check against the constants extracted from the current /repo (a proof
+    obligation broke), build the driver with the committed constants instead, so that the implementation
+    can still be run and searched for a concrete failing input."""
+    path = os.path.join(LEAN, "SockModel", "Generated", "Consts.lean")
+    r = sh(["git", "show", "HEAD:lean/SockModel/Generated/Consts.lean"], cwd=ROOT)
+    if r.returncode != 0:
+        return False
+    with Lock("lean"):
+        cur = open(path).read() if os.path.exists(path) else ""
+        if cur == r.stdout:
+            return False
+        with open(path, "w") as f:
+            f.write(r.stdout)
+        b = sh(["lake", "build"], cwd=LEAN)
+        return b.returncode == 0
+
+
 def sockmodel_exe():
     return os.path.join(LEAN, ".lake", "build", "bin", "sockmodel")
 
